@@ -19,7 +19,7 @@ structure Good (s : Server) : Prop where
   announcedOwn : ∀ (c : Nat) (x : Conn), s.conns[c]? = some x → (x.cid ≠ 0 ∨ x.inited = true) → x.cid ∈ x.announced
 
 structure Safe (s : Server) : Prop where
-  engRange : ∀ e ∈ s.engine, e.1 < s.conns.length
+  engRange : ∀ e ∈ s.willLog, e.1 < s.conns.length
   execOpen : ∀ (c : Nat) (x : Conn), s.conns[c]? = some x → x.closed = false → execOf s c = []
 
 theorem lt_of_get {l : List Conn} {c : Nat} {x : Conn} (h : l[c]? = some x) : c < l.length :=
@@ -196,14 +196,14 @@ theorem safe_open {s : Server} (hs : Safe s) (k : Kind) : Safe { s with conns :=
     · exact fresh
 
 /-- engine untouched, records keep kind and do not re-open -/
-theorem safe_same_engine {s s' : Server} (hs : Safe s) (he : s'.engine = s.engine) (hl : s'.conns.length = s.conns.length)
+theorem safe_same_engine {s s' : Server} (hs : Safe s) (he : s'.willLog = s.willLog) (hl : s'.conns.length = s.conns.length)
     (hr : ∀ (j : Nat) (y' : Conn), s'.conns[j]? = some y' → ∃ y : Conn, s.conns[j]? = some y ∧ (y'.closed = false → y.closed = false) ∧ y'.kind = y.kind) :
     Safe s' := by
   constructor
   · intro e h; rw [he] at h; rw [hl]; exact hs.engRange e h
   · intro j y' hj hop
     obtain ⟨y, hy, h1, _⟩ := hr j y' hj
-    show execL s'.engine j = []
+    show execL s'.willLog j = []
     rw [he]; exact hs.execOpen j y hy (h1 hop)
 
 theorem safe_set {s : Server} (hs : Safe s) {c : Nat} {x : Conn} (hx : s.conns[c]? = some x) (x' : Conn)
